@@ -77,6 +77,16 @@ var skipFiles = map[string]bool{
 	"x/xibc/clients/light-clients/eth/types/sealer.go":    true,
 }
 
+// string parsers whose value is nil / zero when the string is malformed: `x, _ := parse(s)` (flag or error discarded) is
+// the kind `unchecked-ok`. Such a site is only safe when the SAME parser, applied to the same field, is checked by the
+// stateless validator (guard fact): the expression text of the site therefore carries
+// "## same parser checked in: <Validate* functions>" (or NONE), so that relaxing the validator's parser — e.g. base 10 to
+// base 0 — changes the text, un-matches the expectation and is reported.
+var parseFuncs = map[string]bool{"SetString": true, "NewIntFromString": true, "NewDecFromStr": true, "NewUintFromString": true,
+	"ParseUint": true, "ParseInt": true, "Atoi": true, "ParseFloat": true, "ParseBool": true,
+	"AccAddressFromBech32": true, "ValAddressFromBech32": true, "ParseCoinNormalized": true, "ParseCoinsNormalized": true,
+	"DecodeString": true, "ParseHeight": true}
+
 // methods whose RECEIVER may be a nil pointer taken from decoded data (*codectypes.Any fields)
 var nilRecv = map[string]bool{"GetCachedValue": true}
 
@@ -133,6 +143,51 @@ func recvName(d *ast.FuncDecl) string {
 		return id.Name
 	}
 	return ""
+}
+
+// parser signature: callee text + arguments, a field argument `x.Field` rendered as `_.Field`
+func parseSig(c *ast.CallExpr) string {
+	var args []string
+	for _, a := range c.Args {
+		if sel, ok := a.(*ast.SelectorExpr); ok {
+			if _, ok := sel.X.(*ast.Ident); ok {
+				args = append(args, "_."+sel.Sel.Name)
+				continue
+			}
+		}
+		args = append(args, text(a))
+	}
+	return text(c.Fun) + "(" + strings.Join(args, ", ") + ")"
+}
+
+// checkedParsers: parser signature -> Validate* functions in which `v, ok := parse(…)` keeps the flag / error
+var checkedParsers = map[string][]string{}
+
+func collectChecked(f *fn) {
+	if !strings.HasPrefix(f.decl.Name.Name, "Validate") {
+		return
+	}
+	ast.Inspect(f.decl.Body, func(n ast.Node) bool {
+		as, ok := n.(*ast.AssignStmt)
+		if !ok || len(as.Lhs) != 2 || len(as.Rhs) != 1 {
+			return true
+		}
+		c, ok := as.Rhs[0].(*ast.CallExpr)
+		if !ok || !parseFuncs[calleeName(c)] {
+			return true
+		}
+		if id, ok := as.Lhs[1].(*ast.Ident); ok && id.Name == "_" {
+			return true
+		}
+		sig := parseSig(c)
+		for _, g := range checkedParsers[sig] {
+			if g == f.name {
+				return true
+			}
+		}
+		checkedParsers[sig] = append(checkedParsers[sig], f.name)
+		return true
+	})
 }
 
 func calleeName(c *ast.CallExpr) string {
@@ -253,6 +308,9 @@ func main() {
 		}
 	}
 
+	for _, f := range fns {
+		collectChecked(f)
+	}
 	var sites []Site
 	for _, f := range fns {
 		if !reach[f] {
@@ -407,8 +465,15 @@ func scan(f *fn, consts map[string]bool, canNil map[string]bool) []Site {
 					okAssert[ta] = true
 				}
 				if c, ok := x.Rhs[0].(*ast.CallExpr); ok {
-					if id, ok := x.Lhs[1].(*ast.Ident); ok && id.Name == "_" && nilExternal[calleeName(c)] {
-						add(x, "unchecked-ok")
+					if id, ok := x.Lhs[1].(*ast.Ident); ok && id.Name == "_" && (parseFuncs[calleeName(c)] || nilExternal[calleeName(c)]) {
+						guards := append([]string{}, checkedParsers[parseSig(c)]...)
+						sort.Strings(guards)
+						g := "NONE"
+						if len(guards) > 0 {
+							g = strings.Join(guards, ", ")
+						}
+						sites = append(sites, Site{File: f.file, Func: f.name, Line: fset.Position(x.Pos()).Line, Kind: "unchecked-ok",
+							Expr: text(x) + " ## same parser checked in: " + g})
 					}
 				}
 			}
